@@ -89,6 +89,192 @@ func c03Examples() [][2]string {
 	return out
 }
 
+// c03FollowUp: after a call of the Enforce family on e ended in an error, the same request on the
+// same enforcer must return, with the outcome class it had before, and the sentinels must still
+// answer (c03_after.go).  false: something hung, stop generating.
+func c03FollowUp(c *Ctx, id string, e *casbin.Enforcer, req []interface{}, first c03Out, replay string) bool {
+	var ok2 bool
+	var err2 error
+	s := c03GuardedT(c03AfterLimit, func() { ok2, err2 = e.Enforce(req...) })
+	c.Count("follow-up after an error")
+	switch {
+	case s == "hang":
+		c.Direct(id, fmt.Sprintf("an earlier error poisons later calls: the same Enforce on the same enforcer did not return within %s the second time", c03AfterLimit), replay)
+		return false
+	case s != "":
+		c.Direct(id, "the same Enforce on the same enforcer, repeated after an error: "+s, replay)
+	case first.what == "Enforce" && (ok2 != first.ok || (err2 != nil) != (first.err != nil)):
+		c.Direct(id, fmt.Sprintf("the same Enforce on the same enforcer answered (%v, err=%v) and, repeated after an error, (%v, err=%v)", first.ok, first.err != nil, ok2, err2 != nil), replay)
+	}
+	return c03AfterError(c, id, replay)
+}
+
+// hostile patterns for the built-in operators: texts whose expansion is not a regular
+// expression, placeholders of every syntax, CIDR / glob oddities
+var c03OpPatterns = []string{"/p/{id}/c/{id}", "/x/{id}/unbalanced(", "/p/:id", "/x/:id/unbalanced(", "/p/*", "/a/[", "/a/)", "(", ")", "[a-", "/*+", "**", "{", "}", "{}", "{/}", ":",
+	"/{a}/(b)", "/(a)/{b}", "/{a}/{a}/{a}", "/:a/:a", "10.0.0.0/8", "10.0.0.0/33", "not-an-ip", "::1/129", "::/0", "", "\\", "^(", "a{2,1}", "a{1001}", "\xff", "(?P<n>", "[[:foo:]]", "\\pX", "[", "[]", "[^", "{a,b", "\\", "/**/x", "x{1000}{1000}"}
+
+var c03OpObjs = []string{"/p/1/c/1", "/p/1/c/2", "/x/1/unbalanced(", "/p/7", "/a/b", "/a/a/a", "10.0.0.1", "::1", "", "(", "not-an-ip", "\xff", "/p/7?x=(", "a\nb", "7", "id"}
+
+// c03Operators: every built-in operator that takes a pattern, in a matcher of its own, over
+// stored patterns that do not compile and hostile request values.  Implementation only: no
+// escaping panic, no hang, error => deny, and after every error the follow-up calls.
+func c03Operators(c *Ctx) bool {
+	exprs := []string{
+		"keyMatch4(r.obj, p.obj)", "keyGet2(r.obj, p.obj, 'id') == r.act", "keyGet3(r.obj, p.obj, 'id') == r.act",
+		"keyGet2(r.obj, p.obj, r.act) != ''", "keyGet3(r.obj, p.obj, r.act) != ''", "keyGet(r.obj, p.obj) == r.act",
+		"keyMatch(r.obj, p.obj)", "keyMatch2(r.obj, p.obj)", "keyMatch3(r.obj, p.obj)", "keyMatch5(r.obj, p.obj)",
+		"regexMatch(r.obj, p.obj)", "globMatch(r.obj, p.obj)", "ipMatch(r.obj, p.obj)",
+		"keyMatch4(p.obj, r.obj)", "regexMatch(p.obj, r.obj)", "globMatch(p.obj, r.obj)", "ipMatch(p.obj, r.obj)",
+		"(keyMatch4(r.obj, p.obj) || keyGet2(r.obj, p.obj, 'id') == r.act || keyGet3(r.obj, p.obj, 'id') == r.act)",
+		"(regexMatch(r.act, p.act) && keyMatch4(r.obj, p.obj))",
+	}
+	iters := 120
+	if c.Thorough() {
+		iters = 3000
+	}
+	pick := func(xs []string) string { return xs[c.Rng.Intn(len(xs))] }
+	for xi, expr := range exprs {
+		m, err := model.NewModelFromString(c03OpModel(expr))
+		if err != nil {
+			panic(err)
+		}
+		e, err := casbin.NewEnforcer(m)
+		if err != nil {
+			panic(err)
+		}
+		for it := 0; it < iters; it++ {
+			if it%12 == 0 {
+				e.ClearPolicy()
+			}
+			if it%3 == 0 {
+				pat := pick(c03OpPatterns)
+				if c.Rng.Intn(4) == 0 {
+					pat = pick(c03Strings)
+				}
+				rule := []string{"alice", pat, pick([]string{"read", "1", "7", "id", "(", ""})}
+				_ = c03Guarded(func() { _, _ = e.AddPolicy(toIface(rule)...) })
+			}
+			obj := pick(c03OpObjs)
+			if c.Rng.Intn(4) == 0 {
+				obj = pick(c03Strings)
+			}
+			req := []interface{}{"alice", obj, pick([]string{"read", "1", "7", "id", "("})}
+			if c.Rng.Intn(10) == 0 {
+				req[1+c.Rng.Intn(2)] = c03Value(c)
+			}
+			id := fmt.Sprintf("c03.hostile.op%d.%d", xi, it)
+			replay := func() string {
+				p, _ := e.GetPolicy()
+				return fmt.Sprintf("matcher=%q policy=%q request=%#v", "r.sub == p.sub && "+expr, p, req)
+			}
+			var first c03Out
+			var ok2 bool
+			var err2 error
+			s := c03Guarded(func() {
+				ok, err := e.Enforce(req...)
+				first = c03Out{"Enforce", ok, err}
+				ok2, _, err2 = e.EnforceEx(req...)
+			})
+			c.Count("hostile-operator")
+			if s != "" {
+				c.Direct(id, "Enforce with a built-in operator on a hostile pattern: "+s, replay())
+				if strings.HasPrefix(s, "hang") {
+					return false
+				}
+				continue
+			}
+			if (first.err != nil && first.ok) || (err2 != nil && ok2) {
+				c.Direct(id, "Enforce / EnforceEx returned an error together with decision true", replay())
+			}
+			if first.ok != ok2 || (first.err != nil) != (err2 != nil) {
+				c.Direct(id, fmt.Sprintf("Enforce = (%v, err=%v) but EnforceEx = (%v, err=%v)", first.ok, first.err != nil, ok2, err2 != nil), replay())
+			}
+			if first.err != nil {
+				c.Count("hostile-operator error")
+				if !c03FollowUp(c, id, e, req, first, replay()) {
+					return false
+				}
+			}
+		}
+	}
+	return true
+}
+
+// c03ConcurrentOperators: independent enforcers used from 16 goroutines at once, every one
+// meeting patterns nobody compiled before (the operators share a process-wide regexp cache):
+// every call must return its sequential answer.  A Go runtime fatal error here (concurrent map
+// writes) cannot be recovered: it ends the harness process and ./check reports the crash.
+func c03ConcurrentOperators(c *Ctx) {
+	const workers = 16
+	n := 150
+	if c.Thorough() {
+		n = 2000
+	}
+	type res struct{ bad string }
+	out := make([]res, workers)
+	start := make(chan struct{})
+	done := make(chan int, workers)
+	for w := 0; w < workers; w++ {
+		e := c03NewEnforcer(c03OpModel("(keyMatch4(r.obj, p.obj) || keyGet2(r.obj, p.obj, 'id') == r.act || keyGet3(r.obj, p.obj, 'id') == r.act)"), nil, nil)
+		go func(w int, e *casbin.Enforcer) {
+			defer func() {
+				if r := recover(); r != nil {
+					out[w].bad = "panic: " + fmt.Sprint(r)
+				}
+				done <- w
+			}()
+			<-start
+			for k := 0; k < n && out[w].bad == ""; k++ {
+				var rule []string
+				var yes, no []interface{}
+				switch k % 3 {
+				case 0:
+					rule = []string{"alice", fmt.Sprintf("/w%d/k%d/{a}/{a}", w, k), "x"}
+					yes, no = toIface([]string{"alice", fmt.Sprintf("/w%d/k%d/7/7", w, k), "-"}), toIface([]string{"alice", fmt.Sprintf("/w%d/k%d/7/8", w, k), "-"})
+				case 1:
+					rule = []string{"alice", fmt.Sprintf("/w%d/k%d/:id", w, k), "x"}
+					yes, no = toIface([]string{"alice", fmt.Sprintf("/w%d/k%d/7", w, k), "7"}), toIface([]string{"alice", fmt.Sprintf("/w%d/k%d/7", w, k), "8"})
+				default:
+					// the same fresh pattern in every goroutine at (nearly) the same time
+					rule = []string{"alice", fmt.Sprintf("/shared/k%d/{id}", k), "x"}
+					yes, no = toIface([]string{"alice", fmt.Sprintf("/shared/k%d/7", k), "7"}), toIface([]string{"alice", fmt.Sprintf("/shared/k%d/7/x", k), "7"})
+				}
+				if _, err := e.AddPolicy(toIface(rule)...); err != nil {
+					out[w].bad = "AddPolicy: " + err.Error()
+					break
+				}
+				if ok, err := e.Enforce(yes...); !ok || err != nil {
+					out[w].bad = fmt.Sprintf("rule %v: Enforce(%v) = (%v, %v), want (true, nil)", rule, yes, ok, err)
+				}
+				if ok, err := e.Enforce(no...); ok || err != nil {
+					out[w].bad = fmt.Sprintf("rule %v: Enforce(%v) = (%v, %v), want (false, nil)", rule, no, ok, err)
+				}
+				if k%10 == 9 {
+					e.ClearPolicy()
+				}
+			}
+		}(w, e)
+	}
+	close(start)
+	timeout := time.After(120 * time.Second)
+	for i := 0; i < workers; i++ {
+		select {
+		case <-done:
+		case <-timeout:
+			c.Direct("c03.hostile.conc", "concurrent Enforce calls on independent enforcers (keyMatch4 / keyGet2 / keyGet3 on fresh patterns) did not return within 120 s", fmt.Sprintf("%d goroutines x %d fresh patterns", workers, n))
+			c03Stop = true
+			return
+		}
+	}
+	for w := range out {
+		if out[w].bad != "" {
+			c.Direct("c03.hostile.conc", "concurrent Enforce calls on independent enforcers: goroutine "+fmt.Sprint(w)+": "+out[w].bad, fmt.Sprintf("%d goroutines x %d fresh patterns", workers, n))
+		}
+	}
+	c.Count("hostile-concurrent-operators")
+}
+
 func c03Hostile(c *Ctx) {
 	iters := 300
 	if c.Thorough() {
@@ -176,12 +362,20 @@ func c03Hostile(c *Ctx) {
 				}
 				continue
 			}
+			anyErr := false
 			for _, o := range outs {
 				if o.err != nil && o.ok {
 					c.Direct(id, o.what+" returned an error together with decision true", fmt.Sprintf("model=%s request=%#v", ex[0], req))
 				}
+				anyErr = anyErr || o.err != nil
+			}
+			if anyErr && !c03FollowUp(c, id, e, req, outs[0], fmt.Sprintf("model=%s request=%#v", ex[0], req)) {
+				return
 			}
 		}
+	}
+	if !c03Operators(c) {
+		return
 	}
 	// built-in operator wrappers with hostile arguments called directly must error, not panic —
 	// except where the documented behaviour IS a panic inside Enforce's recover (recorded only)
@@ -287,4 +481,8 @@ m = g(r.sub, p.sub) && r.obj == p.obj && r.act == p.act
 		}
 	}
 	_ = util.KeyMatch
+	// last: a runtime fatal error here ends the process
+	if !c03Stop {
+		c03ConcurrentOperators(c)
+	}
 }
